@@ -121,3 +121,22 @@ Example validate_example :
 Proof.
   cbv zeta. split; [vm_compute; reflexivity|]. split; [reflexivity|]. split; [eexists; vm_compute; reflexivity|vm_compute; reflexivity].
 Qed.
+
+(** non-vacuity of the strict theorems: whole-buffer arguments, block = inlined call up to the loop variable *)
+Example strict_example :
+  let n := 1%positive in let dst := 2%positive in let src := 3%positive in let i := 4%positive in
+  let x := 5%positive in let y := 6%positive in let j := 7%positive in
+  let f := Proc [(n, KSize); (dst, KTensor [Var n] false); (src, KTensor [Var n] false)] [BinOp OGe (Var n) (Int 1)]
+                [For i (Int 0) (Var n) [Assign dst [Var i] (BinOp OAdd (Read src [Var i]) (Real (Q2Qc 1)))] false] in
+  let args := [Int 2; Read x []; Read y []] in
+  let block := [For j (Int 0) (Int 2) [Assign x [Var j] (BinOp OAdd (Read y [Var j]) (Real (Q2Qc 1)))] false] in
+  let st := mkState [(x, BView (mkView 1 0 [(2, 1)])); (y, BView (mkView 2 0 [(2, 1)]))]
+                    [(1%positive, [None; None]); (2%positive, [Some (Q2Qc 5); Some (Q2Qc 7)])] 3%positive [] in
+  validate_strict block (Call f args) = true /\
+  (exists acts c0, eval_actuals st (proc_args f) args = Ok acts /\ bind_args (proc_args f) acts (with_env [] st) = Ok c0 /\
+                   check_preds c0 (proc_preds f) = Ok tt) /\
+  exec_list block st = exec (Call f args) st.
+Proof.
+  cbv zeta. split; [vm_compute; reflexivity|]. split; [|vm_compute; reflexivity].
+  eexists. eexists. split; [vm_compute; reflexivity|]. split; vm_compute; reflexivity.
+Qed.
